@@ -16,6 +16,7 @@ from sa.report import Report, section
 from sa.effects import Effects
 from sa.util import disjunctions, cfg_root, node_has_call, node_stores_attr, has_fact, exists_in, fact_in, local_assigned_from
 from sa import pat
+from sa.util import unalias as _unalias
 
 DESTRUCTIVE = {"delete", "upload", "rmtree"}
 
@@ -125,7 +126,7 @@ class C02:
                 tpn = local_assigned_from(ctx, d, "self.translate($$$)") or "translated_path"
                 tp = {n.id for n in g.nodes if n.kind == "test" and pat.match(tpn, n.ast) is not None}
                 pth = g.reach([g.entry.id], lambda n: n in dele, avoid=lambda n: n in loops,
-                              follow=lambda a, b, l: l != "exc" and not (what == "pending rename" and a in tp and l == "F") and not (what == "pending rename" and g.nodes[a].kind == "test" and pat.match("%s[%s].path" % (sync, changed), g.nodes[a].ast) is not None and l == "F"))
+                              follow=lambda a, b, l: l != "exc" and not (what == "pending rename" and a in tp and l == "F") and not (what == "pending rename" and g.nodes[a].kind == "test" and pat.match("%s[%s].path" % (sync, changed), _unalias(ctx, d, g.nodes[a].ast)) is not None and l == "F"))
                 ok = pth is None
             rep.check("C02.R3", "delete_synced|%s" % what, d, ok, "%s -> ignore + return before the provider delete" % what,
                       "delete_synced no longer drops a delete when another entry has a %s: the newer object is deleted" % what)
@@ -266,5 +267,7 @@ def run(ctx: Ctx, rep: Report, tier: str):
     rep.rule("C02.R17", "a delete never wins over a peer edit that is still in flight: the pre-sync refresh re-reads the quiet side too (C14.W1)", 1)
     section(rep, lambda: refresh_covers_both_sides(ctx, rep, "C02.R17"))
     from rules.decisions import decision_table, table_sites
-    rep.rule("C02.R18", "decision table of content-change and conflict handling: upload, conflict detection, split-conflict resolution and the conflict look-ups take each action (return value, handler call, store, graft) under exactly the recorded path condition and on the recorded side", table_sites("C02"))
-    section(rep, lambda: decision_table(ctx, rep, "C02.R18", "C02"))
+    rep.rule("C02.DT", "decision table (rules/decisions.json) of content-change and conflict handling, split conflicts, the conflict look-ups, ignore / unignore / clear: for every function and every action shape (an impure call with the parameters it passes, a store to an "
+             "attribute or item, a delete, a returned constant, a yield, a raise) the set of states - over the function's guard atoms - in which the action is taken "
+             "equals the recorded one; compared as canonical decision diagrams, so any equivalent respelling of the guards is the same table", table_sites("C02"))
+    section(rep, lambda: decision_table(ctx, rep, "C02.DT", "C02"))
